@@ -18,6 +18,8 @@ var props = map[string]propCfg{
 	"C19": {Assumptions: []string{"mirror types in harness/mirror follow the documented mapping rules (pogs/doc.go)", "schemas: aircraftlib only", "field bit ranges are read from the registered schema nodes"}},
 	"C20": {Assumptions: []string{"ref.ParseText implements the Cap'n Proto text value grammar as emitted for structs (strict about string literals)", "schemas: aircraftlib only", "the expected field values are read through the generated accessors"}},
 	"C16": {Assumptions: []string{"the version rule (top-level struct truncated / zero-extended, nested objects intact) is the one documented at Struct.CopyFrom; independence is asserted for operations documented or implemented as copies (cross-message assignment, list members, SetStruct, CopyFrom)"}},
+	"C06": {Race: true, Assumptions: []string{"the peer model (harness/vat) encodes Cap'n Proto RPC level 1 as read from rpc.capnp: one Return per Bootstrap/Call, pipelined calls resolve through the answer's results, E-order per capability, embargo on loop-back resolution", "the peer is protocol-conforming: it never pipelines on a finished answer, forwards pipelined calls before echoing a disembargo, answers every question once", "recording objects Ack at once, so the server never reorders for lack of an acknowledgement", "sequential histories: the harness waits for quiescence after every step (schedule variety comes from the concurrent sub-check)"}},
+	"C07": {Race: true, Assumptions: []string{"the peer counts references exactly as rpc.capnp prescribes: +1 per senderHosted descriptor received, -n per Release, minus the descriptors of a Return whose Finish had releaseResultCaps, minus the descriptors of params whose Return had releaseParamCaps", "VerifState hook (build tag verif) exposes the Conn's export table for comparison at quiescent points", "object release is observed through the Shutdown callback of server.Server"}},
 	"C08": {Race: true, Assumptions: []string{"the peer-side table model (which ids are live) is derived from the messages the peer itself sent and received", "per-message expectations are sets of outcomes the protocol allows; a message the code cannot even parse is held only to survival + alive-or-aborted"}},
 	"C09": {Level: "fault_enumeration", Assumptions: []string{"fault points are the operations of the rpc.Transport interface (harness-owned transport) and the Write/Read calls of the byte stream under the stream transports", "'bounded time' is a 30 s deadline on operations that take microseconds", "VerifState hook (build tag verif) for lock state"}},
 	"C10": {Race: true, Assumptions: []string{"the reference model encodes the documented life cycle of Client / ClientPromise / WeakClient", "programmer errors (double Fulfill, promise cycles, AddRef/WeakRef/Fulfill with a released client) are never generated", "concurrent schedules are sampled, not enumerated"}},
